@@ -217,6 +217,14 @@ def _match(fnd, key, trace):
     m = fnd.get("match")
     if m and trace is not None and isinstance(trace.get("cell"), dict):
         cell = trace["cell"]
+        if "symptoms_any" in m or "symptoms_subset" in m:
+            # a trace can show several symptoms at once: it belongs to this finding when at least one of the finding's
+            # own symptoms is present and every symptom present is one the finding explains (so that an additional,
+            # unexplained symptom in the same trace is still reported)
+            have = set(cell.get("symptoms") or ([] if cell.get("symptom") in (None, "none", "several") else [cell.get("symptom")]))
+            if not have or not (have & set(m.get("symptoms_any", []))) or not have <= set(m.get("symptoms_subset", m.get("symptoms_any", []))):
+                return False
+            m = {k: v for k, v in m.items() if k not in ("symptoms_any", "symptoms_subset")}
         for k, v in m.items():
             cv = cell.get(k)
             if isinstance(v, list):
